@@ -76,6 +76,9 @@ type Case struct {
 	Env          map[string]string `json:"env,omitempty"`
 	WorkingDir   string            `json:"working_dir,omitempty"` // relative to the case directory
 	Opts         Opts              `json:"opts"`
+	// Labels: the compose files are handed to the loader with their content and with the relative
+	// text of ComposeFiles as Filename (a caller-side label), instead of an absolute path to read
+	Labels bool `json:"labels,omitempty"`
 }
 
 // Key returns a stable textual form of the case (for distinct counting).
@@ -160,6 +163,12 @@ func Details(dir string, c *Case) types.ConfigDetails {
 		p := f
 		if !filepath.IsAbs(p) {
 			p = filepath.Join(dir, f)
+		}
+		if c.Labels && !filepath.IsAbs(f) {
+			if b, err := os.ReadFile(p); err == nil {
+				cfs = append(cfs, types.ConfigFile{Filename: f, Content: b})
+				continue
+			}
 		}
 		cfs = append(cfs, types.ConfigFile{Filename: p})
 	}
